@@ -183,6 +183,61 @@ fn check_relations(c: &RelCase, info: &mut Info) -> Result<(), String> {
     Ok(())
 }
 
+/// related arguments back to back on one thread: f, then conj f / 1/f / -f / frob^k f / f again / f*c (c in Fq6),
+/// each compared with the model power (a memo keyed by a function of the argument needs exactly this)
+#[derive(Clone, Debug, Serialize, Deserialize, PartialEq, Eq, Hash)]
+pub struct SeqCase {
+    pub f: FeIn,
+    pub steps: Vec<(u8, ExtR)>,
+}
+
+fn seq_strategy() -> BoxedStrategy<SeqCase> {
+    (fein_strategy(), proptest::collection::vec((0u8..7, ext_strategy(6)), 2..5)).prop_map(|(f, steps)| SeqCase { f, steps }).boxed()
+}
+
+fn fe_vs_model(v: &Fq12, what: &str) -> Result<(), String> {
+    let got = cr("final_exponentiation", || Bls12::final_exponentiation(&fq12_c(v)))?;
+    match got {
+        None => {
+            if !v.is_zero() {
+                return Err(format!("final_exponentiation({}) reported failure for a non-zero element", what));
+            }
+        }
+        Some(g) => {
+            if v.is_zero() {
+                return Err(format!("final_exponentiation({}) returned a value for zero", what));
+            }
+            if fq12_m(&g) != v.pow(&C().final_exp) {
+                return Err(format!("final_exponentiation({}) differs from the model power; argument {:?}", what, v));
+            }
+        }
+    }
+    Ok(())
+}
+
+fn check_seq(c: &SeqCase, info: &mut Info) -> Result<(), String> {
+    let f = build(&c.f)?;
+    fe_vs_model(&f, "f")?;
+    for (i, (op, e)) in c.steps.iter().enumerate() {
+        let (name, v) = match op % 7 {
+            0 => ("conj f", f.conj()),
+            1 => ("1/f", f.inv().unwrap_or_else(Fq12::zero)),
+            2 => ("-f", Fq12::zero().sub(&f)),
+            3 => ("frob f", f.frobenius(1 + (i % 11))),
+            4 => ("f again", f.clone()),
+            5 => {
+                let cm = Fq12::from_tower(&e.tower(6));
+                ("f * c, c in Fq6", if cm.is_zero() { f.clone() } else { f.mul(&cm) })
+            }
+            _ => ("conj(1/f)", f.inv().unwrap_or_else(Fq12::zero).conj()),
+        };
+        info.class(format!("then:{}", name));
+        fe_vs_model(&v, name).map_err(|m| format!("call #{} of a sequence on related arguments (after final_exponentiation(f)): {}", i + 1, m))?;
+    }
+    info.nt_if(!f.is_zero() && !in_proper_subfield(&f));
+    Ok(())
+}
+
 crate::long_sub!(run_long_history, [11]);
 
 pub fn def() -> PropDef {
@@ -194,6 +249,7 @@ pub fn def() -> PropDef {
             Box::new(crate::engine::EnumSub { name: "long-history", rule: super::longhist::RULE, run: run_long_history, replay: super::longhist::replay, exhaustive: false }),
             Box::new(crate::engine::EnumSub { name: "two-input-bursts", rule: super::longhist::BURST_RULE, run: run_two_input_bursts, replay: super::longhist::replay_burst, exhaustive: false }),
             Box::new(Sub { name: "model-power", rule: "final_exponentiation(f) == f^(3(q^12-1)/r) by the model; None iff f = 0", quick: 400, thorough: 5000, strategy: || boxed(fein_strategy().prop_map(|f| PowCase { f })), check: check_power }),
+            Box::new(Sub { name: "related-sequences", rule: "final_exponentiation(f), then 2..4 calls on related arguments back to back (conj f, 1/f, -f, frob^k f, f again, f*c with c in Fq6, conj(1/f)), each compared with the model power", quick: 150, thorough: 3000, strategy: || boxed(seq_strategy()), check: check_seq }),
             Box::new(Sub { name: "relations", rule: "multiplicative; image has order dividing r; proper subfields map to 1", quick: 3_000, thorough: 40_000, strategy: || boxed((fein_strategy(), fein_strategy()).prop_map(|(f, g)| RelCase { f, g })), check: check_relations }),
         ],
         assumptions: COMMON_ASSUMPTIONS.to_vec(),
